@@ -843,6 +843,7 @@ impl<'a> TypeEncoder<'a> {
 
         let ty = kind.ty();
         let index = self.ty(state, ty, Some(name));
+        let instance_index = state.current.encodable.instance_count();
         let index = Self::export_type(
             state,
             name,
@@ -856,9 +857,22 @@ impl<'a> TypeEncoder<'a> {
             },
         );
 
-        // For types, remap to the index of the exported item
-        if let ItemKind::Type(ty) = kind {
-            state.current.type_indexes.insert(ty, index);
+        match kind {
+            // For types, remap to the index of the exported item
+            ItemKind::Type(ty) => {
+                state.current.type_indexes.insert(ty, index);
+            }
+            // Like an imported instance, an exported instance is available for
+            // aliasing by the items that follow and use its types
+            ItemKind::Instance(id) => {
+                if let Some(iid) = &self.0[id].id {
+                    log::debug!(
+                        "instance index {instance_index} ({iid}) is available for aliasing"
+                    );
+                    state.current.instances.insert(iid.clone(), instance_index);
+                }
+            }
+            _ => {}
         }
 
         index
